@@ -314,7 +314,10 @@ UNIT = VUnit(
            sig="fn next_token(&mut self) -> (r: SpannedToken)", expect_sig=r"fn next_token\(&mut self\) -> SpannedToken<'arena>",
            requires=["old(self).inv()"],
            ensures=FRAME + ["final(self).inv()", "final(self).pos >= old(self).pos",
-                            "span_ok(final(self).src@, r.span.start as int, r.span.end as int)"],
+                            "span_ok(final(self).src@, r.span.start as int, r.span.end as int)",
+                            # token spans are monotone and never overlap: a token starts at or after where the previous call stopped and ends
+                            # exactly where this call stops -- so the parser's `start..end` spans (start from an earlier token than end) are ordered
+                            "r.span.start >= old(self).pos", "r.span.end == final(self).pos"],
            loops={1: dict(invariant=["self.inv()", "self.src == old(self).src", "self.len == old(self).len", "self.pos >= old(self).pos"],
                           decreases="self.len - self.pos")},
            inserts=[(r"^\s*self\.pos \+= 1;", 2, "proof { lemma_after_ascii(self.src@, self.pos as int); }")],
